@@ -775,3 +775,71 @@ def end_anchor(t):
     if t.endswith("$") and not t.endswith("\\$"):
         return "loose", t[:-1]
     return None, t
+
+
+def limits_intact(ck, S, rid, which):
+    """the size limit (which == "size") / file-count limit ("count") given to the sink's constructor reaches the private object's member with its
+    value: the public constructor's argument and the member initialiser are evaluated by cases (engine/conc.py) over small, boundary and large
+    values. A limit that is silently replaced (a 'plausibility' correction, a clamp, a unit conversion) makes the sink enforce another limit than
+    the configured one."""
+    from engine.conc import Conc, Unknown
+    F = S.F
+    cts = [f for f in F.fn_all(RP + "::RotatingFileSinkPrivate") if f.d.get("kind") == "ctor" and not f.d.get("copyctor") and not f.d.get("movector")]
+    pub = [f for f in F.fn_all(RS + "::RotatingFileSink") if f.d.get("kind") == "ctor" and not f.d.get("copyctor") and not f.d.get("movector") and f.body is not None]
+    if len(cts) != 1 or len(pub) != 1:
+        ck.ob(rid, "rotatingfilesink.cpp (constructors)", None, "the constructors of the sink / its private object were not found (%d / %d)" % (len(pub), len(cts)), key="limit-intact|%s" % which)
+        return
+    ct, pc = cts[0], pub[0]
+    grid = (1, 2, 3, 5, 7, 8, 20, 100, 4096, 1 << 20, (1 << 31) - 1) if which == "size" else (2, 3, 4, 5, 9, 10, 100, 1000)
+    keepcls = (0, -1, -5) if which == "size" else (1, 0, -1)
+
+    def param(fn):
+        ps = [p_ for p_ in fn.params if which in (p_.get("name") or "").lower()]
+        return ps[0] if len(ps) == 1 else None
+    stages = []
+    pp_, cp_ = param(pc), param(ct)
+    if pp_ is None or cp_ is None:
+        ck.ob(rid, sitestr(ct), None, "no single constructor parameter named after the %s limit" % which, key="limit-intact|%s" % which)
+        return
+    # stage 1: public constructor -> argument of the private constructor
+    news = [n for n in pc.all_nodes() if n.get("k") == "construct" and strip_tmpl(n.get("class") or "").endswith("RotatingFileSinkPrivate")]
+    for i in pc.inits:
+        if isinstance(i.get("e"), dict):
+            news += [n for n in walk(i["e"]) if n.get("k") == "construct" and strip_tmpl(n.get("class") or "").endswith("RotatingFileSinkPrivate")]
+    idx = [k for k, p_ in enumerate(ct.params) if p_["decl"] == cp_["decl"]][0]
+    if len(news) >= 1 and len(news[0].get("args", [])) > idx:
+        stages.append(("RotatingFileSink(...)", pc, pp_, news[0]["args"][idx]))
+    else:
+        ck.ob(rid, sitestr(pc), None, "the private object's construction was not found in the public constructor", key="limit-intact|%s|public" % which)
+    # stage 2: private constructor -> member
+    mem = [i for i in ct.inits if i.get("member") and isinstance(i.get("e"), dict) and any(x.get("k") == "ref" and x.get("decl") == cp_["decl"] for x in walk(i["e"]))
+           and ("int" in (F.field_type(strip_tmpl(i["member"])) or "int"))] if hasattr(F, "field_type") else \
+          [i for i in ct.inits if i.get("member") and isinstance(i.get("e"), dict) and any(x.get("k") == "ref" and x.get("decl") == cp_["decl"] for x in walk(i["e"]))]
+    own = [i for i in mem if which in i["member"].split("::")[-1].lower() and "max" in i["member"].split("::")[-1].lower()] or mem
+    if len(own) >= 1:
+        stages.append(("member %s" % own[0]["member"].split("::")[-1], ct, cp_, own[0]["e"]))
+    else:
+        ck.ob(rid, sitestr(ct), None, "no member of the private object is initialised from the %s limit" % which, key="limit-intact|%s|member" % which)
+    for label, fn, p_, expr in stages:
+        wrong, unk = [], None
+        for v in grid + keepcls:
+            env = {"__fn__": fn, p_["decl"]: v}
+            for q_ in fn.params:
+                if q_["decl"] != p_["decl"]:
+                    env["__unk__:%s" % q_["decl"]] = True
+            try:
+                got = Conc(F, tolerant=True, max_steps=4000).eval(expr, env)
+            except Unknown as e_:
+                unk = str(e_)
+                break
+            if not isinstance(got, int):
+                unk = "non-integer value"
+                break
+            same = (got == v) if v in grid else ((got <= 0) == (v <= 0) and (got == 1) == (v == 1) if which == "count" else (got <= 0))
+            if not same:
+                wrong.append("%d becomes %d" % (v, got))
+        if unk:
+            ck.ob(rid, sitestr(fn, expr), None, "%s: the value handed on for the %s limit could not be evaluated (%s)" % (label, which, unk), key="limit-intact|%s|%s" % (which, label.split()[0]))
+        else:
+            ck.ob(rid, sitestr(fn, expr), not wrong, "%s receives the %s limit unchanged (%d values from 1 to the largest int; non-positive values stay 'no limit')" % (label, which, len(grid)) if not wrong else
+                  "%s does not receive the configured %s limit: %s - the sink enforces another limit than the one it was given" % (label, which, ", ".join(wrong[:4])), key="limit-intact|%s|%s" % (which, label.split()[0]))
